@@ -102,6 +102,9 @@ RLIMIT_BRANCH = 2_000_000
 RLIMIT_PROVE = 40_000_000
 
 
+BRANCH_TIMEOUT_MS = int(os.environ.get("ROPTVC_BRANCH_TIMEOUT_MS", "30000"))
+
+
 class Ctx:
     """State of one execution (one path)."""
 
@@ -117,6 +120,9 @@ class Ctx:
     def _check(self, extra, rlimit=RLIMIT_BRANCH):
         s = z3.Solver()
         s.set("rlimit", rlimit)
+        # wall-clock cap as well (non-linear path conditions can spend minutes inside one resource unit); 'unknown' counts as
+        # feasible, which is the safe side: an infeasible path only adds obligations with an unsatisfiable path condition
+        s.set("timeout", BRANCH_TIMEOUT_MS)
         for c in self.pc:
             s.add(c)
         for c in extra:
